@@ -683,6 +683,7 @@ namespace pika::threads::detail {
             new (td) task_description{std::move(data)};    //-V106
 #endif
             new_tasks_.push(td);
+            PIKA_VERIF_POINT("tq.create.staged", this, 0, 0);
             if (&ec != &throws) ec = make_success_code();
         }
 
